@@ -44,7 +44,8 @@ def ops(draw):
     if kind == "printoptions":
         # process-wide NumPy display settings (summarisation threshold, line width, precision): pure presentation state
         return ["printoptions", draw(st.sampled_from([dict(threshold=1, edgeitems=1), dict(threshold=2, edgeitems=1), dict(linewidth=8),
-                                                      dict(precision=3, suppress=True), dict(threshold=0, edgeitems=2, linewidth=20)]))]
+                                                      dict(precision=3, suppress=True), dict(threshold=0, edgeitems=2, linewidth=20),
+                                                      dict(sign="+"), dict(sign=" "), dict(sign="+", floatmode="fixed", precision=2)]))]
     if kind == "rng":
         return ["rng", draw(st.sampled_from(["rand", "randn", "randint", "permutation", "seed", "uniform"])), draw(st.integers(1, 1000))]
     if kind in ("run_foreign", "construct_foreign"):
